@@ -22,10 +22,14 @@ from simkit import values as V
 OP_NAMES = ['OpA', 'OpAB', 'OpA_b', 'OpB']
 
 
+IN_ALIASES = ['in%d', 'in%d', 'input: i%d', 'get.%d', 'result%d', 'in %d', 'fetch_result_%d', 'output: as input %d']
+OUT_ALIASES = ['out%d', 'out%d', 'result_%d', 'send results %d', 'out%d.result', 'output: o%d', 'x%d result', 'publish_results%d']
+
+
 class InputSpec(object):
-    def __init__(self, idx):
+    def __init__(self, idx, alias=None):
         self.idx = idx
-        self.alias = 'in%d' % idx
+        self.alias = alias or 'in%d' % idx
         self.kind = 'instance'        # instance | static | property
         self.resolver = False
         self.capture = None           # None | [] | [CapturedArg]
@@ -48,9 +52,9 @@ class InputSpec(object):
 
 
 class OutputSpec(object):
-    def __init__(self, idx):
+    def __init__(self, idx, alias=None):
         self.idx = idx
-        self.alias = 'out%d' % idx
+        self.alias = alias or 'out%d' % idx
         self.kind = 'instance'
         self.handler = False
         self.fail_on_missing = True
@@ -96,10 +100,10 @@ def describe_steps(steps):
     for st in steps:
         k = st[0]
         if k == 'in':
-            out.append('IN(in%d,#%d%s%s)' % (st[1], st[2], ',dep%d' % st[3] if st[3] else '',
+            out.append('IN(i%d,#%d%s%s)' % (st[1], st[2], ',dep%d' % st[3] if st[3] else '',
                                                ',fault=%s' % st[4] if st[4] else ''))
         elif k == 'out':
-            out.append('OUT(out%d,%s%s)' % (st[1], V.short(st[2], 30), ',fault=%s' % st[4] if st[4] else ''))
+            out.append('OUT(o%d,%s%s)' % (st[1], V.short(st[2], 30), ',fault=%s' % st[4] if st[4] else ''))
         elif k == 'spawn':
             out.append('SPAWN%s[%s]' % ('*' if st[2] else '', ' | '.join(describe_steps(b) for b in st[1])))
         elif k == 'rec':
@@ -143,6 +147,7 @@ def resolved_alias(ispec, dep_name):
 def gen_service(tape, run, max_inputs=4, max_outputs=3, max_steps=12, threads=False, allow_faulty_ops=False,
                 rich_missing=False, value_depth=2, max_calls_per_alias=None):
     spec = ServiceSpec()
+    odd_aliases = tape.draw(3) == 2
     op = spec.op
     op.name = tape.choice(OP_NAMES)
     op.kind = 'instance' if tape.draw(3) < 2 else 'class'
@@ -150,9 +155,10 @@ def gen_service(tape, run, max_inputs=4, max_outputs=3, max_steps=12, threads=Fa
     ninputs = 1 + tape.draw(max_inputs)
     noutputs = tape.draw(max_outputs + 1)
     for i in range(ninputs):
-        spec.inputs.append(gen_input(tape, run, i, value_depth, rich_missing))
+        spec.inputs.append(gen_input(tape, run, i, value_depth, rich_missing,
+                                     alias=(tape.choice(IN_ALIASES) % i) if odd_aliases else None))
     for j in range(noutputs):
-        o = OutputSpec(j)
+        o = OutputSpec(j, alias=(tape.choice(OUT_ALIASES) % j) if odd_aliases else None)
         o.kind = 'instance' if tape.draw(3) < 2 else 'static'
         o.handler = tape.draw(4) == 3
         spec.outputs.append(o)
@@ -168,8 +174,8 @@ def gen_service(tape, run, max_inputs=4, max_outputs=3, max_steps=12, threads=Fa
     return spec
 
 
-def gen_input(tape, run, idx, value_depth, rich_missing):
-    i = InputSpec(idx)
+def gen_input(tape, run, idx, value_depth, rich_missing, alias=None):
+    i = InputSpec(idx, alias)
     i.kind = tape.weighted([(4, 'instance'), (2, 'static'), (1, 'property')])
     if i.kind == 'property':
         i.npos, i.kwnames = 0, []
@@ -562,6 +568,11 @@ class Service(object):
                 raise RuntimeError('injected: extractor fails')
             if mode == 'ok':
                 return dict(spec.user_metadata)
+            if mode == 'discards':
+                # runs during finalisation: the recording is no longer the active one, so this must be a no-op
+                svc.env.run.fault('discard_in_extractor')
+                rec.discard_recording()
+                return dict(spec.user_metadata)
             svc.env.run.fault('extractor_junk')
             return {'junk_none': None, 'junk_int': 7, 'junk_str': 'text', 'junk_list': [1, 2, 3]}[mode]
 
@@ -900,7 +911,7 @@ class Recorded(object):
         self.saved = False
 
 
-def record_once(spec, run, cassette, rseed=0, thread_factory=None, recorder=None, sim=None, sent=False):
+def record_once(spec, run, cassette, rseed=0, thread_factory=None, recorder=None, sim=None, sent=False, service=None):
     """Live run of the service with recording enabled over `cassette` (wrapped in a spy)."""
     out = Recorded()
     if recorder is not None and isinstance(recorder.tape_cassette, SpyCassette):
@@ -910,8 +921,13 @@ def record_once(spec, run, cassette, rseed=0, thread_factory=None, recorder=None
     out.recorder = recorder or TapeRecorder(out.spy, random_seed=rseed)
     out.recorder.tape_cassette = out.spy
     out.recorder.enable_recording()
-    out.env = Env(spec, run, out.recorder)
-    out.svc = Service(spec, out.env, out.recorder, thread_factory=thread_factory or inline_thread_factory)
+    if service is not None:
+        # the same decorated classes are invoked again (state kept by the decorators shows up here)
+        out.svc, out.env = service, service.env
+        out.svc.checks, out.svc.last_result, out.svc.last_raised, out.svc.extractor_calls, out.svc.slept = [], None, None, 0, 0.0
+    else:
+        out.env = Env(spec, run, out.recorder)
+        out.svc = Service(spec, out.env, out.recorder, thread_factory=thread_factory or inline_thread_factory)
     if sent:
         out.svc.sent = []
     before = len(out.spy.calls)
@@ -973,6 +989,23 @@ def recording_in_faithful_domain(rec):
         return True
     inner = getattr(r, 'wrapped_recording', r)
     return V.doc_faithful({'d': dict(inner.recording_data), 'm': dict(inner.recording_metadata)})
+
+
+def failing_replay(spec, run, tape, cassette, rec_id, recorder, thread_factory=None):
+    """History step: a replay on `recorder` that legitimately fails with a missing key after some calls were
+    answered (the replayed code asks for an input that was never recorded)."""
+    s2 = copy.copy(spec)
+    s2.inputs = list(spec.inputs)
+    extra = InputSpec(len(s2.inputs), alias='never_recorded_input')
+    extra.npos = 0
+    extra.pool = [((), {})]
+    s2.inputs.append(extra)
+    top = [n for n, st in enumerate(spec.body)]
+    pos = tape.draw(len(top) + 1)
+    s2.body = [list(st) for st in spec.body[:pos]] + [['in', extra.idx, 0, 0, None]] + [list(st) for st in spec.body[pos:]]
+    rep = replay_once(s2, run, cassette, rec_id, recorder=recorder, thread_factory=thread_factory)
+    run.probe('history_failed_replay_first')
+    return rep
 
 
 def outputs_as_map(outputs):
